@@ -1,0 +1,417 @@
+//go:build verif && linux
+// +build verif,linux
+
+package main
+
+// Add-only verification hook (build tag "verif"): runs the REAL stdio protocol routines of this
+// package ("package main" cannot be imported by the harness) on operations read from the file named
+// by $VERIF_OPS and writes one canonical result line per operation to $VERIF_OUT.
+//
+//	stdio <TAB> enc  <TAB> id <TAB> isRequest(0|1) <TAB> value   -> hex(encodePacket)
+//	stdio <TAB> dec  <TAB> hex                                  -> "ok id isRequest value" | "fail" | "PANIC"
+//	stdio <TAB> ru32 <TAB> hex                                  -> "value leftover ok"
+//	stdio <TAB> wu32 <TAB> hex <TAB> value                      -> hex(writeUint32(bytes, value))
+//	stdio <TAB> lps  <TAB> hex                                  -> "slice leftover ok"
+//	stdio <TAB> svc  <TAB> hex,hex,...   (read chunks)          -> the length-prefixed packets written to stdout by runService, then "PANIC" if it panicked
+//
+// value syntax: N | T | F | I<decimal>; | S<hex>; | B<hex>; | A( value* ) | M( (<hex>: value)* )
+// Nothing in esbuild refers to this file; without the tag it is not compiled.
+
+import (
+	"bufio"
+	"encoding/hex"
+	"fmt"
+	"io"
+	"os"
+	"sort"
+	"strconv"
+	"strings"
+	"syscall"
+	"testing"
+	"time"
+	"unsafe"
+)
+
+type verifParser struct {
+	s   string
+	pos int
+	bad bool
+}
+
+func (p *verifParser) hexUntil(end byte) []byte {
+	i := strings.IndexByte(p.s[p.pos:], end)
+	if i < 0 {
+		p.bad = true
+		return nil
+	}
+	b, err := hex.DecodeString(p.s[p.pos : p.pos+i])
+	if err != nil {
+		p.bad = true
+		return nil
+	}
+	p.pos += i + 1
+	return b
+}
+
+func (p *verifParser) value() interface{} {
+	if p.bad || p.pos >= len(p.s) {
+		p.bad = true
+		return nil
+	}
+	c := p.s[p.pos]
+	p.pos++
+	switch c {
+	case 'N':
+		return nil
+	case 'T':
+		return true
+	case 'F':
+		return false
+	case 'I':
+		i := strings.IndexByte(p.s[p.pos:], ';')
+		if i < 0 {
+			p.bad = true
+			return nil
+		}
+		n, err := strconv.ParseInt(p.s[p.pos:p.pos+i], 10, 64)
+		if err != nil {
+			p.bad = true
+			return nil
+		}
+		p.pos += i + 1
+		return int(n)
+	case 'S':
+		return string(p.hexUntil(';'))
+	case 'B':
+		b := p.hexUntil(';')
+		if b == nil {
+			b = []byte{}
+		}
+		return b
+	case 'A':
+		if p.pos >= len(p.s) || p.s[p.pos] != '(' {
+			p.bad = true
+			return nil
+		}
+		p.pos++
+		items := []interface{}{}
+		for !p.bad {
+			if p.pos < len(p.s) && p.s[p.pos] == ')' {
+				p.pos++
+				return items
+			}
+			items = append(items, p.value())
+		}
+		return nil
+	case 'M':
+		if p.pos >= len(p.s) || p.s[p.pos] != '(' {
+			p.bad = true
+			return nil
+		}
+		p.pos++
+		m := map[string]interface{}{}
+		for !p.bad {
+			if p.pos < len(p.s) && p.s[p.pos] == ')' {
+				p.pos++
+				return m
+			}
+			k := p.hexUntil(':')
+			if p.bad {
+				return nil
+			}
+			m[string(k)] = p.value()
+		}
+		return nil
+	}
+	p.bad = true
+	return nil
+}
+
+func verifShow(sb *strings.Builder, v interface{}) {
+	switch x := v.(type) {
+	case nil:
+		sb.WriteByte('N')
+	case bool:
+		if x {
+			sb.WriteByte('T')
+		} else {
+			sb.WriteByte('F')
+		}
+	case int:
+		fmt.Fprintf(sb, "I%d;", x)
+	case string:
+		sb.WriteByte('S')
+		sb.WriteString(hex.EncodeToString([]byte(x)))
+		sb.WriteByte(';')
+	case []byte:
+		sb.WriteByte('B')
+		sb.WriteString(hex.EncodeToString(x))
+		sb.WriteByte(';')
+	case []interface{}:
+		sb.WriteString("A(")
+		for _, it := range x {
+			verifShow(sb, it)
+		}
+		sb.WriteByte(')')
+	case map[string]interface{}:
+		keys := make([]string, 0, len(x))
+		for k := range x {
+			keys = append(keys, k)
+		}
+		sort.Strings(keys)
+		sb.WriteString("M(")
+		for _, k := range keys {
+			sb.WriteString(hex.EncodeToString([]byte(k)))
+			sb.WriteByte(':')
+			verifShow(sb, x[k])
+		}
+		sb.WriteByte(')')
+	default:
+		sb.WriteString("?")
+	}
+}
+
+func verifHex(b []byte) string {
+	if len(b) == 0 {
+		return "-"
+	}
+	return hex.EncodeToString(b)
+}
+
+func verifUnhex(s string) ([]byte, bool) {
+	if s == "-" {
+		return []byte{}, true
+	}
+	b, err := hex.DecodeString(s)
+	return b, err == nil
+}
+
+func verifGuard(f func() string) (out string) {
+	defer func() {
+		if r := recover(); r != nil {
+			out = "PANIC"
+		}
+	}()
+	return f()
+}
+
+// verifSession runs the real runService loop with stdin/stdout replaced by pipes. Every chunk is
+// written only after the previous one has been taken out of the pipe (FIONREAD == 0), so each chunk
+// is exactly one os.Stdin.Read result (chunks are at most 16 KiB, the size of runService's buffer).
+func verifSession(chunks [][]byte) string {
+	inR, inW, err := os.Pipe()
+	if err != nil {
+		return "pipe-error"
+	}
+	outR, outW, err := os.Pipe()
+	if err != nil {
+		return "pipe-error"
+	}
+	inFd := inR.Fd()
+	oldIn, oldOut := os.Stdin, os.Stdout
+	os.Stdin, os.Stdout = inR, outW
+	collected := make(chan []byte, 1)
+	go func() {
+		b, _ := io.ReadAll(outR)
+		collected <- b
+	}()
+	done := make(chan struct{})
+	panicked := false
+	go func() {
+		defer func() {
+			if r := recover(); r != nil {
+				panicked = true
+			}
+			close(done)
+		}()
+		runService(false)
+	}()
+	finished := func() bool {
+		select {
+		case <-done:
+			return true
+		default:
+			return false
+		}
+	}
+	pending := func() int {
+		var n int32
+		syscall.Syscall(syscall.SYS_IOCTL, inFd, uintptr(syscall.TIOCINQ), uintptr(unsafe.Pointer(&n)))
+		return int(n)
+	}
+feed:
+	for _, c := range chunks {
+		if finished() {
+			break
+		}
+		inW.Write(c)
+		for spins := 0; pending() != 0; spins++ {
+			if finished() {
+				break feed
+			}
+			if spins > 200 {
+				time.Sleep(20 * time.Microsecond)
+			}
+		}
+	}
+	inW.Close()
+	<-done
+	os.Stdin, os.Stdout = oldIn, oldOut
+	outW.Close()
+	out := <-collected
+	inR.Close()
+	outR.Close()
+
+	// The first thing on stdout is the length-prefixed version
+	version, rest, ok := readLengthPrefixedSlice(out)
+	if !ok || string(version) != esbuildVersion {
+		return "bad-version-header"
+	}
+	var parts []string
+	for {
+		frame, after, ok := readLengthPrefixedSlice(rest)
+		if !ok {
+			break
+		}
+		parts = append(parts, verifHex(rest[:4+len(frame)]))
+		rest = after
+	}
+	if len(rest) != 0 {
+		parts = append(parts, "trailing:"+verifHex(rest))
+	}
+	if panicked {
+		parts = append(parts, "PANIC")
+	}
+	if len(parts) == 0 {
+		return "-"
+	}
+	return strings.Join(parts, " ")
+}
+
+func verifRun(args []string) string {
+	if len(args) < 2 || args[0] != "stdio" {
+		return "bad-op"
+	}
+	switch args[1] {
+	case "enc":
+		if len(args) != 5 {
+			return "bad-op"
+		}
+		id, err := strconv.ParseUint(args[2], 10, 32)
+		if err != nil {
+			return "bad-op"
+		}
+		p := &verifParser{s: args[4]}
+		v := p.value()
+		if p.bad || p.pos != len(p.s) {
+			return "bad-op"
+		}
+		return verifGuard(func() string {
+			return verifHex(encodePacket(packet{id: uint32(id), isRequest: args[3] == "1", value: v}))
+		})
+	case "dec":
+		if len(args) != 3 {
+			return "bad-op"
+		}
+		b, ok := verifUnhex(args[2])
+		if !ok {
+			return "bad-op"
+		}
+		return verifGuard(func() string {
+			p, ok := decodePacket(b)
+			if !ok {
+				return "fail"
+			}
+			sb := &strings.Builder{}
+			req := 0
+			if p.isRequest {
+				req = 1
+			}
+			fmt.Fprintf(sb, "ok %d %d ", p.id, req)
+			verifShow(sb, p.value)
+			return sb.String()
+		})
+	case "ru32":
+		if len(args) != 3 {
+			return "bad-op"
+		}
+		b, ok := verifUnhex(args[2])
+		if !ok {
+			return "bad-op"
+		}
+		return verifGuard(func() string {
+			v, left, ok := readUint32(b)
+			return fmt.Sprintf("%d %s %v", v, verifHex(left), ok)
+		})
+	case "wu32":
+		if len(args) != 4 {
+			return "bad-op"
+		}
+		b, ok := verifUnhex(args[2])
+		v, err := strconv.ParseUint(args[3], 10, 32)
+		if !ok || err != nil {
+			return "bad-op"
+		}
+		return verifGuard(func() string { return verifHex(writeUint32(b, uint32(v))) })
+	case "lps":
+		if len(args) != 3 {
+			return "bad-op"
+		}
+		b, ok := verifUnhex(args[2])
+		if !ok {
+			return "bad-op"
+		}
+		return verifGuard(func() string {
+			s, left, ok := readLengthPrefixedSlice(b)
+			return fmt.Sprintf("%s %s %v", verifHex(s), verifHex(left), ok)
+		})
+	case "svc":
+		if len(args) != 3 {
+			return "bad-op"
+		}
+		var chunks [][]byte
+		if args[2] != "-" {
+			for _, h := range strings.Split(args[2], ",") {
+				b, ok := verifUnhex(h)
+				if !ok || len(b) == 0 || len(b) > 16*1024 {
+					return "bad-op"
+				}
+				chunks = append(chunks, b)
+			}
+		}
+		return verifSession(chunks)
+	}
+	return "bad-op"
+}
+
+func TestVerifCodec(t *testing.T) {
+	opsName, outName := os.Getenv("VERIF_OPS"), os.Getenv("VERIF_OUT")
+	if opsName == "" || outName == "" {
+		t.Skip("VERIF_OPS / VERIF_OUT not set")
+	}
+	in, err := os.Open(opsName)
+	if err != nil {
+		t.Fatal(err)
+	}
+	defer in.Close()
+	outFile, err := os.Create(outName)
+	if err != nil {
+		t.Fatal(err)
+	}
+	w := bufio.NewWriterSize(outFile, 1<<20)
+	sc := bufio.NewScanner(in)
+	sc.Buffer(make([]byte, 1<<20), 1<<28)
+	for sc.Scan() {
+		w.WriteString(verifRun(strings.Split(sc.Text(), "\t")))
+		w.WriteByte('\n')
+	}
+	if err := sc.Err(); err != nil {
+		t.Fatal(err)
+	}
+	if err := w.Flush(); err != nil {
+		t.Fatal(err)
+	}
+	if err := outFile.Close(); err != nil {
+		t.Fatal(err)
+	}
+}
